@@ -69,6 +69,12 @@ def cases(rng, tier):
     # objects handed back by moves / shuffles, and copy / deepcopy / pickle duplicates of objects with built-up state
     for l in core.childq_cases(rng, 60 if tier == "quick" else 400, ['dmaxperm', 'kappa', 'dmax', 'html', 'phosseq']):
         yield Case([l], {"kind": "object-from-move-or-copy"})
+    # block-ordered chains with >= 18 neutral residues (a lone charge or a pair against a block, neutrals piled up at one end): the
+    # parent is asked for kappa / delta-max first, then a shuffled child is queried; and query pairs on the same object
+    for sq in gen.block_arrangements(rng, 30 if tier == "quick" else 300):
+        yield Case(["childq kappashuffle %s - %s" % (sq, rng.choice(["dmax", "kappa", "dmaxperm"]))], {"kind": "object-from-move-or-copy"})
+        q1, q2 = rng.sample(["kappa", "dmax", "dmaxperm", "delta", "omega"], 2)
+        yield hist_case([sq], [(0, q1), (0, q2), (0, q1)], "pair-block-ordered")
     nfix = 8 if tier == "quick" else 11
     for s in FIXED[:nfix]:
         sh = [q for q in shapes(rng, len(s)) if not q.startswith(("linComp", "cplx", "reduce", "ppii", "ww", "mw", "aafrac", "disorder", "countN", "fminus", "sty", "len"))][:37]
